@@ -50,6 +50,20 @@ CHECKS.update({
             TRUST_HTTP, '4.3'),
 })
 
+CHECKS.update({
+    'C13': ('exploration',
+            'HTTP-boundary runtime monitor: independent RFC 7233 model judges (status, Content-Range, body) of every ranged GET against the unranged body of the same URL at the same virtual instant',
+            'Exhaustive boundary grid of first/last/suffix positions around 0, L-1, L, L+1, 2^31, 2^63 per URL plus a malformed corpus '
+            'and thousands of random header mutations, on live/vod/multi-period segment routes and the range-only on-demand route.',
+            TRUST_HTTP, '4.13'),
+    'C10': ('exploration',
+            'HTTP-boundary runtime monitor: box-level diff (independent walker) of every init response against the stored file, pssh payloads read back with an independent PRO/WRMHEADER reader; the selection x location x version x mode x route product is enumerated',
+            'thorough enumerates the complete product of 12 stored files x {live,vod} x 744 DRM selections x PlayReady versions x '
+            '{single,multi-period} routes (exhaustive); quick a rotating 1/6 slice. Every difference from the stored bytes other than '
+            'appended pssh for selected moov-located systems and mehd removal in live mode is reported.',
+            TRUST_HTTP, '4.10'),
+})
+
 NOT_YET = {}
 
 
